@@ -117,7 +117,7 @@ theorem zstdFooter_no_panic (p : List UInt8) : zstdFooter p ≠ Outcome.panic :=
   split
   · simp
   · rename_i h40
-    have h40 : p.length = 40 := by simpa using h40
+    have h40 : p.length = 40 := by simpa [zstdFooterSize] using h40
     rw [sliceB_ok p 0 8 (by omega) (by omega), sliceB_ok p 8 16 (by omega) (by omega),
       sliceB_ok p 32 40 (by omega) (by omega)]
     simp only [ok_bind]
